@@ -95,19 +95,13 @@ func c12Resolve(root *ggql.Root, k int, v string) map[string]interface{} {
 	return res
 }
 
-func c12Run(threads, perThread int) {
+func c12Run(threads, perThread, kinds int) {
 	d := c12Draw()
 	v := sym.String("v", 1)
 	n := threads * perThread
 	reqs := make([]int, n)
 	for k := range reqs {
-		nreq := 5 // quick: struct fields, methods, union list, fragment with variable
-		if sym.Thorough() {
-			nreq = len(c12Requests)
-		}
-		if n > 2 {
-			nreq = 3 // three or four requests in flight: fields and both method fields (the first-use windows of one type)
-		}
+		nreq := kinds
 		reqs[k] = sym.Choice("request", nreq)
 	}
 	// alone, each on its own fresh (cold) root
@@ -135,24 +129,29 @@ func c12Run(threads, perThread int) {
 	}
 }
 
-// C12_cold: two goroutines with one request each on a cold root (thorough:
-// also three goroutines, and two goroutines with two requests each).
+// C12_cold: two goroutines with one request each on a cold root (quick: 4
+// request kinds - struct fields, both method fields, union list -
+// and at most 2 preemptions per schedule; thorough: all 8
+// kinds with at most 3).
 func C12_cold() {
-	shape := 0
 	if sym.Thorough() {
-		shape = sym.Choice("shape", 3)
+		sym.Preemptions(3) // (unbounded, and 4, did not finish in two hours)
+		c12Run(2, 1, len(c12Requests))
+		return
 	}
-	switch shape {
-	case 0:
-		if sym.Thorough() {
-			sym.Preemptions(3) // (unbounded, and 4, did not finish in two hours)
-		}
-		c12Run(2, 1)
-	case 1:
+	c12Run(2, 1, 4)
+}
+
+// C12_three: three goroutines on a cold root resolving fields of one type
+// (the first-use windows of regField / assureType): quick: struct fields and
+// one method field, at most 1 preemption; thorough: struct fields and both method
+// fields, at most 2 preemptions.
+func C12_three() {
+	if sym.Thorough() {
 		sym.Preemptions(2)
-		c12Run(3, 1)
-	default:
-		sym.Preemptions(2)
-		c12Run(2, 2)
+		c12Run(3, 1, 3)
+		return
 	}
+	sym.Preemptions(1)
+	c12Run(3, 1, 2)
 }
